@@ -7,7 +7,15 @@
     provenance of every output line, expected outcome computed on the generator's abstract graph
     (cycle -> ValueError, missing -> FileNotFoundError, malformed -> SyntaxError, diamond -> accepted);
 (c) the entry-point clause: compile_file vs compile_string of the substituted text, and
-    `bardic compile` / `bardic play` / `bardic bundle` through click's CliRunner on the same entry file.
+    `bardic compile` / `bardic play` / `bardic bundle` through click's CliRunner on the same entry file;
+(d) provenance as the author sees it: a diagnosable construct (the table of harness/c14.py) is put on the first line
+    of every file, right after every @include line, on a drawn inner line and at the end of every file of an include
+    graph - in particular graphs whose entry file BEGINS with an @include, nested 1-3 levels, every included file
+    beginning with an @include too, so that line 0 of the combined text comes from the innermost file - and the file
+    and line NAMED by the diagnostic of compile_file / `bardic compile` / `bardic play` / `bardic bundle` are compared
+    with where the construct was put.  Only diagnostics that carry a location are judged (which constructs carry one
+    is C14's subject); signatures: diagnostic-provenance:<wrong-file|wrong-line>:<position class>:<entry point>,
+    entry-point-<cmd>-diagnostic-differs.
 """
 from __future__ import annotations
 
@@ -581,6 +589,200 @@ def pinned_play(chk):
 
 
 # ------------------------------------------------------------------------------------------------
+# (d) provenance through the diagnostics
+# ------------------------------------------------------------------------------------------------
+
+FIRST_DIRS = ["", "lib", "lib/inner", "d1", "d2/deep/er"]
+
+
+def gen_first_chain(rng, depth):
+    """An include graph whose entry file BEGINS with an @include and in which every included file but the innermost
+    begins with an @include of the next one (depth = number of included files on that chain, 1..3); further includes
+    (a sibling passage file later in a file, a text fragment inside a passage body) are drawn on top.  Same format as
+    gen_graph.  The entry file defines Start, End and Shop(item, count=1), the names the construct table refers to."""
+    n = depth + 1
+    files = []
+    for i in range(n):
+        d = rng.choice(FIRST_DIRS)
+        files.append({"path": posixpath.join("w", d, "main.bard" if i == 0 else f"f{i}.bard"), "kind": "passages",
+                      "nl": rng.random() < 0.7, "children": [i + 1] if i + 1 < n else [], "extra": []})
+    extras = []          # (parent, fid, kind)
+    for i in range(n):
+        r = rng.random()
+        if r < 0.3:
+            fid = len(files)
+            files.append({"path": posixpath.join("w", rng.choice(FIRST_DIRS), f"side{fid}.bard"), "kind": "passages",
+                          "nl": rng.random() < 0.7, "children": [], "extra": []})
+            extras.append((i, fid, "passages"))
+        elif r < 0.5:
+            fid = len(files)
+            files.append({"path": posixpath.join("w", rng.choice(FIRST_DIRS), f"frag{fid}.bard"), "kind": "fragment",
+                          "nl": rng.random() < 0.7, "children": [], "extra": []})
+            extras.append((i, fid, "fragment"))
+    names = {i: ("Start" if i == 0 else f"P{i}") for i in range(len(files)) if files[i]["kind"] == "passages"}
+    targets = sorted(names)
+
+    def inc(f, k):
+        return ("inc", k, directive(rng, spell(rng, f["path"], files[k]["path"])))
+
+    for i, f in enumerate(files):
+        items = []
+        if f["kind"] == "fragment":
+            f["items"] = [("line", rng.choice([t for t in TEXTS if t.strip()])) for _ in range(rng.randint(1, 2))]
+            continue
+        if i + 1 < n:
+            items.append(inc(f, i + 1))                       # the FIRST line of the file
+        items.append(("line", ":: " + names[i]))
+        body = [("line", rng.choice([t for t in TEXTS if t.strip()])) for _ in range(rng.randint(1, 3))]
+        body += [inc(f, fid) for p, fid, kind in extras if p == i and kind == "fragment"]
+        rng.shuffle(body)
+        items += body
+        items.append(("line", ""))
+        for _ in range(rng.randint(0, 2)):
+            items.append(("choice", rng.choice(["Go on", "Look", "Wait"]), rng.choice(targets)))
+        if i == 0:
+            items += [("line", "+ [Buy] -> Shop(1)"), ("line", "+ [Leave] -> End"), ("line", ""),
+                      ("line", ":: Shop(item, count=1)"), ("line", "A shop with {item}."), ("line", "-> End"),
+                      ("line", ""), ("line", ":: End"), ("line", "Fin.")]
+        items += [inc(f, fid) for p, fid, kind in extras if p == i and kind == "passages"]
+        f["items"] = items
+    return {"shape": "include-first", "tags": [f"first-chain-{depth}"], "wild": False, "files": files}
+
+
+def _cli_message(output):
+    """The text of the exception as a CLI command printed it (after its own '✗ Error: ' / '✗ Compile Error: ' label)."""
+    for label in ("✗ Compile Error: ", "✗ Error: "):
+        k = output.find(label)
+        if k >= 0:
+            return output[k + len(label):]
+    return None
+
+
+def diagnostic_provenance(chk, root, g, sub_seed, rng, stats, kinds_per_position=None):
+    """(d): constructs on the first line / after every include / on an inner line / at the end of every file."""
+    from click.testing import CliRunner
+    import bardic.cli.main as M
+    from bardic.compiler.compiler import BardCompiler
+    from . import c14 as D
+
+    entry_abs = os.path.join(root, g["files"][0]["path"])
+    out = os.path.join(root, "out_d")
+    os.makedirs(out, exist_ok=True)
+    runner = CliRunner()
+
+    def compile_file_msg():
+        try:
+            with C.quiet(), C.alarm(30):
+                BardCompiler().compile_file(entry_abs, os.path.join(out, "d.json"))
+            return None
+        except (SyntaxError, ValueError, FileNotFoundError) as e:
+            return str(e)
+        except C.Timeout:
+            return "crash:Timeout"
+        except Exception as e:  # noqa
+            return "crash:" + type(e).__name__
+
+    if compile_file_msg() is not None:
+        stats["hosts_not_compiling"] += 1
+        shutil.rmtree(out, ignore_errors=True)
+        return
+    stats["graphs"] += 1
+    res0 = run_resolve(root, entry_abs)
+    # the files whose first line becomes line 0 of the combined text when a construct is put there: the entry file and,
+    # as long as a file BEGINS with an @include, the file it includes
+    chain0, cur = [], 0
+    while cur not in chain0:
+        chain0.append(cur)
+        its = g["files"][cur]["items"]
+        if not its or its[0][0] != "inc":
+            break
+        cur = its[0][1]
+
+    for f in g["files"]:
+        lines = file_lines(g, f)
+        if not lines:
+            continue
+        fabs = os.path.join(root, f["path"])
+        # a file that enters the combined text twice (diamond) would carry the construct twice, the second copy inside
+        # whatever block the first one opens: not "one construct at top level" any more
+        times = sum(1 for fp, ln in res0[2] if ln == 0 and os.path.realpath(fp) == os.path.realpath(fabs))
+        if times != 1:
+            stats["files_skipped_included_twice_or_never"] += 1
+            continue
+        is_inc = [it[0] == "inc" for it in f["items"]]
+        positions = {0: "first-line", len(lines): "end-of-file"}
+        for k, inc_ in enumerate(is_inc):
+            if inc_ and k + 1 <= len(lines):
+                positions.setdefault(k + 1, "after-include")
+        if len(lines) > 2:
+            positions.setdefault(rng.randrange(1, len(lines)), "inner-line")
+        host = [("body", t) for t in lines] + [("body", None)]
+        for pos, pclass in sorted(positions.items()):
+            kinds = list(D.CONSTRUCTS)
+            if kinds_per_position is not None and pclass != "first-line":
+                kinds = rng.sample(kinds, kinds_per_position)
+            for kind in kinds:
+                new, idx, _ctx, _alt = D.place(host, pos, kind, f["path"])
+                with open(fabs, "w", encoding="utf-8", newline="") as fh:
+                    fh.write("\n".join(new) + ("\n" if f["nl"] else ""))
+                try:
+                    msg = compile_file_msg()
+                    pc = pclass
+                    if pclass == "first-line" and f is not g["files"][0] and g["files"].index(f) in chain0:
+                        pc = "combined-line-0"
+                    stats["placements"] += 1
+                    frag = D.CONSTRUCTS[kind][2]
+                    if msg is None or frag not in msg:
+                        stats["outcomes"]["accepted" if msg is None else "other-diagnostic"] += 1
+                        chk.count(("dp", sub_seed, f["path"], pos, kind), False)
+                        continue
+                    how, locs = D.parse_location(msg, entry_abs)
+                    if how == "none" or not locs:
+                        stats["outcomes"]["no-location"] += 1          # C14's subject (F14b), not judged here
+                        chk.count(("dp", sub_seed, f["path"], pos, kind), False)
+                        continue
+                    chk.count(("dp", sub_seed, f["path"], pos, kind), True)
+                    stats["located_by_position"][pc] = stats["located_by_position"].get(pc, 0) + 1
+                    true_line = idx + 1
+                    msgs = {"compile_file": msg}
+                    for cmd, argv in (("compile", ["compile", entry_abs, "-o", os.path.join(out, "c.json")]),
+                                      ("play", ["play", entry_abs]),
+                                      ("bundle", ["bundle", entry_abs, "-o", os.path.join(out, "b"), "--minimal"])):
+                        with _CopySkipper(), C.alarm(60):
+                            r = runner.invoke(M.cli, argv, input="")
+                        m = _cli_message(r.output) if r.exit_code != 0 else None
+                        msgs[cmd] = m
+                        stats["entry_points"][cmd] = stats["entry_points"].get(cmd, 0) + 1
+                    for ep, m in msgs.items():
+                        rp = {**replay_of(g, sub_seed), "construct": kind, "placed_in": f["path"], "placed_at_line": true_line,
+                              "position_class": pc, "entry_point": ep, "changed_file_text": "\n".join(new),
+                              "message": (m or "")[:800]}
+                        if m is None or m.rstrip("\n") != msg.rstrip("\n"):
+                            if ep != "compile_file":
+                                stats["outcomes"]["entry-point-differs"] += 1
+                                chk.report(f"entry-point-{ep}-diagnostic-differs",
+                                           f"`bardic {ep}` does not print compile_file's diagnostic for {kind} in "
+                                           f"{f['path']} line {true_line}: " +
+                                           ("no error" if m is None else repr(m.splitlines()[:3])), rp)
+                            if m is None:
+                                continue
+                        how_m, locs_m = D.parse_location(m, entry_abs)
+                        if any(l == true_line and D.same_file(fl, fabs) for fl, l in locs_m):
+                            stats["outcomes"]["correct"] += 1
+                            continue
+                        f0, l0 = (locs_m[-1] if how_m == "dup" else locs_m[0]) if locs_m else (None, None)
+                        cls = "wrong-file" if not D.same_file(f0, fabs) else "wrong-line"
+                        stats["outcomes"][cls] += 1
+                        chk.report(f"diagnostic-provenance:{cls}:{pc}:{ep}",
+                                   f"{kind} put in {f['path']} line {true_line} ({pc}; graph {g['shape']} "
+                                   f"{'+'.join(g['tags'])}): {ep} names {model_path(root, f0) if f0 else f0} line {l0}", rp)
+                finally:
+                    with open(fabs, "w", encoding="utf-8", newline="") as fh:
+                        fh.write(file_text(g, f))
+    shutil.rmtree(out, ignore_errors=True)
+
+
+# ------------------------------------------------------------------------------------------------
 # string-level streams
 # ------------------------------------------------------------------------------------------------
 
@@ -643,10 +845,16 @@ def run(tier: str, seed: int) -> int:
     rng = chk.rng
     n_graphs, max_files, n_cli, n_dir, n_path = ((220, 6, 70, 300, 200) if tier == "quick"
                                                  else (3000, 8, 500, 3000, 2000))
+    # (d): include-first chains per depth 1..3 (every construct on every drawn position), and generated graphs that
+    # compile (every construct on the first line of every file, a drawn subset elsewhere)
+    n_first_per_depth, n_diag_generic, kinds_generic = (2, 10, 6) if tier == "quick" else (12, 120, 12)
     dist = {"shape": {}, "tags": {}, "outcome": {}, "expected": {}, "files": {}, "depth": {}, "wild": 0,
             "output_lines": {}, "includes_per_graph": {}}
     stats = {"compiled_ok": 0, "compiled_ok_with_includes": 0, "cli_compile": 0, "cli_bundle": 0, "cli_play": 0,
              "cli_play_skipped_known": 0}
+    dstats = {"graphs": 0, "hosts_not_compiling": 0, "files_skipped_included_twice_or_never": 0, "placements": 0, "entry_points": {}, "located_by_position": {},
+              "outcomes": {"accepted": 0, "other-diagnostic": 0, "no-location": 0, "correct": 0, "wrong-file": 0,
+                           "wrong-line": 0, "entry-point-differs": 0}}
 
     def bump(d, k):
         d[str(k)] = d.get(str(k), 0) + 1
@@ -659,9 +867,14 @@ def run(tier: str, seed: int) -> int:
     terms, cases = [], []
     cli_done = 0
     try:
-        for gi in range(n_graphs):
+        n_first = 3 * n_first_per_depth
+        diag_generic_done = 0
+        for gi in range(n_graphs + n_first):
             sub_seed = rng.getrandbits(32)
-            g = gen_graph(random.Random(sub_seed), max_files)
+            if gi < n_graphs:
+                g = gen_graph(random.Random(sub_seed), max_files)
+            else:
+                g = gen_first_chain(random.Random(sub_seed), 1 + (gi - n_graphs) % 3)
             root = os.path.join(scratch_root, f"g{gi}")
             os.makedirs(root)
             write_graph(g, root)
@@ -690,6 +903,15 @@ def run(tier: str, seed: int) -> int:
             if cli_done < n_cli:
                 entry_points(chk, root, g, res, sub_seed, stats, play_known or (play_broken and cli_done >= 6))
                 cli_done += 1
+            elif g["shape"] == "include-first":
+                entry_points(chk, root, g, res, sub_seed, stats, play_known)
+            # (d)
+            if g["shape"] == "include-first":
+                diagnostic_provenance(chk, root, g, sub_seed, random.Random(sub_seed ^ 0x5EED), dstats)
+            elif res[0] == "ok" and not g["wild"] and n_inc >= 1 and diag_generic_done < n_diag_generic:
+                before = dstats["graphs"]
+                diagnostic_provenance(chk, root, g, sub_seed, random.Random(sub_seed ^ 0x5EED), dstats, kinds_generic)
+                diag_generic_done += dstats["graphs"] - before
             shutil.rmtree(root, ignore_errors=True)
 
         # ---- string-level streams ----
@@ -749,9 +971,16 @@ def run(tier: str, seed: int) -> int:
                        "empty files, files without final newline); non-trivial = at least one include directive that is "
                        "followed and the outcome is ok, cycle or missing; directive-classification cases: non-trivial = "
                        "the line is a directive; path cases: non-trivial = the argument contains '..'; distinct = by "
-                       "full content of the files / line / path pair")
+                       "full content of the files / line / path pair; diagnostic-provenance cases: (graph, file, position, "
+                       "construct), non-trivial = the diagnostic of that construct carries a location")
     dist["directive_classes"] = dclasses
     dist["entry_points"] = stats
+    dist["diagnostic_provenance"] = dict(dstats, constructs="the table CONSTRUCTS of harness/c14.py", family=(
+        "include-first chains (entry file and every included file but the innermost BEGIN with an @include; depth 1, 2, 3; "
+        "random directories, directive spellings, extra sibling/fragment includes) with every construct on the first "
+        "line, after every @include line, on a drawn inner line and at the end of every file; generated graphs that "
+        "compile: every construct on the first line of every file, a drawn subset elsewhere; each located diagnostic "
+        "read from compile_file, `bardic compile`, `bardic play`, `bardic bundle`"))
     chk.notes["input_distribution"] = dist
     chk.assumptions = [
         "paths are normalised absolute '/'-separated strings; no symlinks in the generated trees, so "
@@ -760,6 +989,8 @@ def run(tier: str, seed: int) -> int:
         "IsADirectoryError/NotADirectoryError in the implementation; outside the model, not generated)",
         "file contents are ASCII without carriage returns; lines are content.split('\\n')",
         "exception messages are compared by kind; the path named in a message is compared only when it can be read",
+        "diagnostic provenance: only diagnostics that name a line are judged (constructs whose diagnostic has no location "
+        "are C14's recorded finding F14b); constructs are put at top level only (block contexts are C14's subject)",
         "entry-point clause: the story `bardic play` hands to BardEngine is observed by wrapping BardEngine in "
         "bardic.cli.main; pyodide files are not copied while bundling",
     ]
